@@ -6,7 +6,10 @@ cd /repo || exit 2
 if [ -n "$(git status --porcelain)" ]; then echo "/repo not clean"; exit 2; fi
 git apply /verif/seeded/$id/patch.diff || { echo "$id: patch does not apply"; exit 2; }
 cd /verif
+# the evidence file must describe runs against /repo itself: keep the committed one
+cp evidence/$prop.json /tmp/seedrun-evidence-$prop.json 2>/dev/null
 out=$(./check $prop --tier $tier 2>&1); rc=$?
+[ -f /tmp/seedrun-evidence-$prop.json ] && mv /tmp/seedrun-evidence-$prop.json evidence/$prop.json
 git -C /repo checkout -- . ; 
 if [ $rc -eq 1 ]; then echo "$id $tier: CAUGHT  $(echo "$out" | grep -c VIOLATION) violation line(s); $(echo "$out" | grep -E "^$prop $tier:" | cut -c1-120)"; 
 elif [ $rc -eq 0 ]; then echo "$id $tier: MISSED  $(echo "$out" | grep -E "^$prop $tier:" | cut -c1-120)";
